@@ -287,9 +287,9 @@ for s_ in ('AlbumArt', 'AlbumArtEmbedded'): RESP[s_] = dec('res::AlbumArt::from_
 RESP['StickerGet'] = dec('res::StickerGet::from_frame')
 # [C16 oracle] addid answers `Id: <song id>`; update / rescan answer `updating_db: <job id>`
 RESP['Add'] = inline('req::<u64>(cv, "Id"@) == Some(x.0)', 'req::<u64>(cv, "Id"@) is None',
-                     extra='  mutparam frame\n  tokens N17 ".map(SongId)" ".map(|vx_x: u64| -> (vx_r: SongId) ensures vx_r == SongId(vx_x) { SongId(vx_x) })"')
+                     extra='  mutparam frame\n  try? all\n  tokens? N17 ".map(SongId)" ".map(|vx_x: u64| -> (vx_r: SongId) ensures vx_r == SongId(vx_x) { SongId(vx_x) })"')
 for s_ in ('Update', 'Rescan'):
-    RESP[s_] = inline('req::<u64>(cv, "updating_db"@) == Some(x)', 'req::<u64>(cv, "updating_db"@) is None', extra='  mutparam frame')
+    RESP[s_] = inline('req::<u64>(cv, "updating_db"@) == Some(x)', 'req::<u64>(cv, "updating_db"@) is None', extra='  mutparam frame\n  try? all')
 
 # [C16 oracle] `channels` answers one `channel: <name>` line per channel; every line must be one
 LOOP_COMMON = """  attr <<<
@@ -369,8 +369,10 @@ def resp_members(c):
         er = 'exists|f: Frame, e: TypedResponseError| #![trigger call_ensures(%s, (f,), Err::<Self::Response, TypedResponseError>(e))] f.cv() == cv && f.bin() == bin && call_ensures(%s, (f,), Err::<Self::Response, TypedResponseError>(e))' % (r['path'], r['path'])
         mem = ['    /// [%s] the reply is decoded by %s: what that decoder\'s contract says about a frame with these fields' % (r['props'].split()[0], r['path']),
                '    closed %s { %s }' % (sig_ok, ok), '    closed %s { %s }' % (sig_er, er)]
-        fn = ('lift fn "<%s as Command>::response"\n  props %s C13\n  implicit C12\n  ret r\n  prologue <<<\n        let ghost vx_f = frame;\n  >>>\n'
-              '  tailbind r <<<\n        proof { assert(call_ensures(%s, (vx_f,), r)); assert(vx_f.cv() == vx_f.cv()); if r is Err { assert(call_ensures(%s, (vx_f,), Err::<Self::Response, TypedResponseError>(r->Err_0))); } }\n  >>>') % (k, r['props'], r['path'], r['path'])
+        # the witnesses are stated right at the decoder call (N18 callfn), wherever it stands (tail expression, `let x = ..?;`, ...)
+        last = r['path'].split('::')[-1]
+        fn = ('lift fn "<%s as Command>::response"\n  props %s C13\n  implicit C12\n  ret r\n  try? all\n  callfn %s <<<\nlet ghost vx_f = $ARG1;\n----\n'
+              'proof { assert(call_ensures(%s, (vx_f,), vx_r)); assert(vx_f.cv() == vx_f.cv()); if vx_r is Err { assert(call_ensures(%s, (vx_f,), Err::<Self::Response, TypedResponseError>(vx_r->Err_0))); } }\n  >>>') % (k, r['props'], last, r['path'], r['path'])
         return mem, fn
     mem = ['    closed %s { %s }' % (sig_ok, r['ok']), '    closed %s { %s }' % (sig_er, r['err'])]
     fn = 'lift fn "<%s as Command>::response"\n  props %s C13\n  implicit C12\n  ret r\n%s' % (k, r['props'], r['extra'])
